@@ -6,7 +6,7 @@ V = os.path.abspath(os.path.join(os.path.dirname(__file__), ".."))
 NOTE = ("Trusted: Coq 8.16.1 kernel/coqc and vm_compute (no native_compute); no axioms (Print Assumptions of every property "
         "theorem is checked to be 'Closed under the global context' on every run; the one exception is Props/C03float.v, which uses Flocq over Coq's reals "
         "and depends on the standard library's ClassicalDedekindReals.sig_forall_dec, sig_not_dec, FunctionalExtensionality.functional_extensionality_dep and Classical_Prop.classic); the translators py2gallina.py (arithmetic kernel), py2gallina_cache.py (cache decisions), "
-        "py2gallina_revise.py (recursion of ReviseAnno over data frames: its table of pandas idioms), py2gallina_guards.py (refusal guards as boolean functions), py2gallina_reader.py (loading protocol of DensityData over symbolic file names) and py2gallina_cf.py (queue/event loops as interaction programs); the "
+        "py2gallina_revise.py (recursion of ReviseAnno over data frames: its table of pandas idioms), py2gallina_guards.py (refusal guards as boolean functions), py2gallina_reader.py (loading protocol of DensityData over symbolic file names), py2gallina_writers.py (writers of the intermediates as file-action lists) and py2gallina_cf.py (queue/event loops as interaction programs); the "
         "correspondence harness (generators, drivers, abstraction, float rule); CPython/pandas/numpy/h5py. "
         "Modelled, not verified: int32/float32 narrowing, pandas/h5py semantics (tied by execution).")
 
@@ -73,16 +73,17 @@ CHECKS = {
         design="DESIGN.md 6 C11"),
     "C12": dict(
         category="proof",
-        technique="Coq proof (crash = any prefix of each chromosome's writes, any worker interleaving, any ties; invariant over all histories) + kill at every file operation of the real command line",
-        text="Theorems c12_crash_safe/success_is_current/invariant over Model/Cache.v: from every reachable disk, killing a run anywhere and repeating the command gives each chromosome the uninterrupted outcome or an error; pinned rules refuted (c12_legacy_refuted, D16). "
+        technique="Coq proof (crash = any prefix of each chromosome's writes, any worker interleaving, any ties; invariant over all histories) + writers, cache decisions and merge guards translated from /repo on every run (every writer atomic at every crash point) + kill at every file operation of the real command line",
+        text="Theorem c12_code_writers_atomic: ReviseAnno._write, GeneData.write, TransposonData.write and _calculate_overlap_job as translated from the current sources never leave a partial file under the final name, at any crash point; "
+             "c12_crash_safe/success_is_current/invariant over Model/Cache.v: from every reachable disk, killing a run anywhere and repeating the command gives each chromosome the uninterrupted outcome or an error; pinned rules refuted (c12_legacy_refuted, D16). "
              "Tie: the launcher SIGKILLs the whole process group at every DataFrame.to_csv byte offset / os.replace / h5py create, create_dataset, setitem, flush, close (with/without flush) / per-gene and per-task step of observed runs in 8 scenarios; "
              "atomicity of every final-named intermediate, membership of the directory in the model's crash states, the re-run against the model and against the uninterrupted run are checked. "
              "Partial: byte-level crash consistency of HDF5 (torn pages) and power-loss reordering are not modelled; result files are always rewritten by a re-run.",
         design="DESIGN.md 6 C12"),
     "C17": dict(
         category="proof",
-        technique="Coq proof (a failed run leaves a crash state; any number of failed runs then a clean run = clean outcome or error) + fault injection (ENOSPC / worker exceptions) on the real command line",
-        text="Theorems c17_rerun/c17_faults over Model/Cache.v. The first sentence of C17 (a failing step gives a non-zero exit status) is the model's assumption, not a theorem: it is checked on every run by raising OSError(ENOSPC) at every "
+        technique="Coq proof (a failed run leaves a crash state; any number of failed runs then a clean run = clean outcome or error) + writers and the overlap error path translated from /repo on every run + fault injection (ENOSPC / worker exceptions) on the real command line",
+        text="Theorem c17_code_overlap_error_path: after an exception anywhere in the overlap calculation the partial file is removed, the final name untouched or complete, and the exception raised again (code as translated); c17_rerun/c17_faults over Model/Cache.v. The first sentence of C17 (a failing step gives a non-zero exit status) is the model's assumption, not a theorem: it is checked on every run by raising OSError(ENOSPC) at every "
              "create/write/close/rename of every intermediate and result file and RuntimeError in per-gene overlap steps and merge tasks, in the main process and in pool workers, singly and in pairs. "
              "Then as C12: atomic intermediates, crash-state membership, re-run against model and uninterrupted run.",
         design="DESIGN.md 6 C17"),
